@@ -35,6 +35,18 @@ CHECKS = {
                 ref="DESIGN.md 4/C06",
                 text="held on the explored objects of all four types (history end states, replaced/cleared hypergraph metadata, isolated nodes) and on generated .hgr / HIF inputs; exploration",
                 note="labels int/str; user metadata avoids reserved keys; .hgr header single-space separated; HIF duplicate incidence sets checked for existence only"),
+    "C07": dict(tech="runtime monitoring: metamorphic trace check over pairs of executions of hash_hypergraph (same typed content via 4-8 different construction histories => equal hash; each single-element edit => different hash; per-process obs->hash and hash->obs tables; observation before == after hashing)",
+                ref="DESIGN.md 4/C07",
+                text="held on the explored contents of all four container types and all applicable single edits; exploration",
+                note="labels int/str, one numeric type per weight; construction histories that miss the intended content are discarded and counted"),
+    "C08": dict(tech="runtime monitoring: " + POST + " (measures.degree.*, utils.cc.* and the container methods) against set-arithmetic degrees and union-find components, for every filter and node",
+                ref="DESIGN.md 4/C08",
+                text="held on the explored hypergraphs x every order/size filter x every node, through functions and methods; exploration",
+                note="<= 8 nodes; reference union-find in hgxmon/refs.py"),
+    "C09": dict(tech="runtime monitoring: " + POST + " (hypergraphx.linalg and the matrix methods): returned mapping checked as a bijection, dense reference matrices built by definition from the public observation, exact comparison",
+                ref="DESIGN.md 4/C09",
+                text="held on the explored hypergraphs (non-contiguous/string labels, all orders present and absent, dense stress family, uniform tensors, temporal snapshots) except the open known finding (uint8 wrap-around at 256 shared hyperedges); exploration",
+                note="integer matrices compared exactly; per-order variants and Laplacians judged on unweighted inputs as the statement says"),
 }
 
 PENDING = {}
